@@ -57,8 +57,20 @@ def gen_case(rng, tier, idx):
         if tfkind == "collapse_fill":
             cfg["kw"]["timeframe_fill"] = True
         bucket = max(1, tf_s // step)
+    micro = False
+    if rng.random() < 0.12:
+        # sub-second timestamps (still non-decreasing): which candles came through the constructor and which through append must not matter
+        from datetime import datetime, timedelta
+        micro = True
+        prev = None
+        for r in rows:
+            t = datetime.fromisoformat(r[0]) + timedelta(microseconds=rng.choice([0, 1, 250000, 500000, 999999]))
+            if prev is not None and t < prev:
+                t = prev
+            prev = t
+            r[0] = t.isoformat()
     sch = schedules.rand_schedule(rng, len(rows), bucket=bucket, encs=("candle", "candle", "dict", "list", "mixed"))
-    return {"cfg": cfg, "rows": rows, "schedule": sch, "family": fam, "tfkind": tfkind}
+    return {"cfg": cfg, "rows": rows, "schedule": sch, "family": fam, "tfkind": tfkind, "micro": micro}
 
 
 def extra_cases(tier, seed, shard, nshards):
@@ -95,6 +107,8 @@ def run_case(case):
     cfg, rows, sch = case["cfg"], case["rows"], case["schedule"]
     cls = cfg["cls"] if cfg["cls"] != "Amorph" else f"Amorph:{cfg['analysis']}"
     stats = {"cases_by_tfkind": {case["tfkind"]: 1}, "classes_seen": [cls], "families_seen": [case.get("family")]}
+    if case.get("micro"):
+        stats["sub_second_timestamp_cases"] = 1
     if case["tfkind"] != "none":
         stats["collapsing_cases"] = 1
     if case["tfkind"] == "collapse_fill":
